@@ -41,9 +41,9 @@ func TestMain(m *testing.M) {
 func TestReplay(t *testing.T) { stats.RunReplays(t) }
 
 type Header struct {
-	Name  string `json:"name"` // exactly as stored in the header map
-	Value string `json:"value"`
-	Secret bool  `json:"secret"`
+	Name   string `json:"name"` // exactly as stored in the header map
+	Value  string `json:"value"`
+	Secret bool   `json:"secret"`
 }
 
 type Case struct {
@@ -126,14 +126,16 @@ func (c *capture) WithAttrs([]slog.Attr) slog.Handler { return c }
 func (c *capture) WithGroup(string) slog.Handler      { return c }
 
 type recW struct {
-	h      http.Header
-	codes  []int
-	body   bytes.Buffer
+	h       http.Header
+	codes   []int
+	body    bytes.Buffer
+	flushes int
 }
 
-func (w *recW) Header() http.Header        { return w.h }
-func (w *recW) WriteHeader(c int)          { w.codes = append(w.codes, c) }
+func (w *recW) Header() http.Header         { return w.h }
+func (w *recW) WriteHeader(c int)           { w.codes = append(w.codes, c) }
 func (w *recW) Write(b []byte) (int, error) { return w.body.Write(b) }
+func (w *recW) Flush()                      { w.flushes++ }
 
 var sensitive = []string{"Authorization", "Proxy-Authorization", "Cookie", "Set-Cookie", "X-CSRF-Token", "X-Vault-Token"}
 
@@ -150,6 +152,9 @@ func checkCase(c *Case) (err error) {
 		case "body":
 			ctx.Writer().WriteHeader(http.StatusAccepted)
 			_, _ = ctx.Writer().Write([]byte("partial"))
+		case "flush":
+			// the response is started by a flush alone: the implicit 200 header goes out
+			_ = ctx.Writer().FlushError()
 		}
 	}
 	boom := func(ctx fox.Context) {
@@ -263,9 +268,15 @@ func checkCase(c *Case) (err error) {
 		}
 	}
 	started := c.Progress == "header" || c.Progress == "body"
+	if c.Progress == "flush" && !abort {
+		// started by a flush: exactly the implicit 200, nothing appended
+		if len(w.codes) != 1 || w.codes[0] != http.StatusOK || w.body.Len() != 0 {
+			return fmt.Errorf("%sthe response had been started by a flush (implicit 200) and must be left untouched: status codes %v body %q", desc, w.codes, w.body.String())
+		}
+	}
 	switch {
-	case abort:
-		// nothing more is required of the response
+	case abort, c.Progress == "flush":
+		// nothing more is required of the response (the flush case was judged above)
 	case started:
 		wantBody := ""
 		if c.Progress == "body" {
@@ -360,7 +371,7 @@ func genCase(t *rapid.T) *Case {
 	c := &Case{
 		Kind:     gen.Pick(t, []string{"route", "route", "noroute", "nomethod", "options"}, "kind"),
 		Value:    gen.Pick(t, values, "value"),
-		Progress: gen.Pick(t, []string{"none", "none", "informational", "header", "body"}, "progress"),
+		Progress: gen.Pick(t, []string{"none", "none", "informational", "header", "body", "flush"}, "progress"),
 		Where:    "handler",
 	}
 	if c.Kind == "route" {
@@ -402,7 +413,7 @@ func TestPanics(t *testing.T) {
 		if nonCanon {
 			stats.Class("credential-header-in-non-canonical-spelling")
 		}
-		if c.Progress == "body" || nonCanon || (c.Where == "updates-body" && c.Cut > 0) {
+		if c.Progress == "body" || c.Progress == "flush" || nonCanon || (c.Where == "updates-body" && c.Cut > 0) {
 			stats.NonTrivial(fmt.Sprintf("%+v", *c))
 		}
 		if err := checkCase(c); err != nil {
@@ -416,7 +427,7 @@ func TestPanics(t *testing.T) {
 func TestExhaustive(t *testing.T) {
 	hs := []Header{{Name: "Authorization", Value: "tokAAA111q", Secret: true}, {Name: "Cookie", Value: "tokBBB222q", Secret: true}, {Name: "Accept", Value: "tokCCC333q"}}
 	for _, v := range values {
-		for _, p := range []string{"none", "informational", "header", "body"} {
+		for _, p := range []string{"none", "informational", "header", "body", "flush"} {
 			for _, kw := range [][2]string{{"route", "handler"}, {"route", "inner-mw-before"}, {"route", "inner-mw-after"}, {"route", "updates-body"}, {"route", "view-body"}, {"noroute", "handler"}, {"nomethod", "handler"}, {"options", "handler"}, {"noroute", "updates-body"}} {
 				for cut := 0; cut <= 3; cut++ {
 					if kw[1] != "updates-body" && cut > 0 {
